@@ -29,9 +29,8 @@ KNOWN = os.path.join(ROOT, "known_findings.txt")
 sys.path.insert(0, os.path.join(ROOT, "tools"))
 
 ALLOWED_AXIOMS = {"propext", "Classical.choice", "Quot.sound"}
-# the two SWAR lane lemmas are closed by bv_decide (DESIGN.md §8): their generated axioms are accepted
-ALLOWED_AXIOM_RE = re.compile(r"^Khttp\.SwarPf\.hit(Uri|Path)_lanes\._native\.bv_decide\.ax_[0-9_]+$")
-FORBIDDEN = re.compile(r"\b(sorry|admit|native_decide|implemented_by)\b|^\s*axiom\s|\bunsafe\s|maxHeartbeats\s+0")
+# no bv_decide / native_decide anywhere: the SWAR lane lemmas are kernel-checked (Lemmas/SwarKernel.lean)
+FORBIDDEN = re.compile(r"\b(sorry|admit|native_decide|bv_decide|implemented_by)\b|^\s*axiom\s|\bunsafe\s|maxHeartbeats\s+0")
 NCPU = os.cpu_count() or 4
 
 
@@ -127,8 +126,6 @@ def scan_forbidden():
             for ln, line in enumerate(txt.splitlines(), 1):
                 if FORBIDDEN.search(line):
                     bad.append(f"{os.path.relpath(p, LEAN)}:{ln}: {line.strip()[:80]}")
-                if "bv_decide" in line and not p.endswith(os.path.join("Lemmas", "Swar.lean")):
-                    bad.append(f"{os.path.relpath(p, LEAN)}:{ln}: bv_decide outside Lemmas/Swar.lean")
     txt = strip_lean_comments(open(os.path.join(LEAN, "Main.lean"), encoding="utf-8").read())
     if FORBIDDEN.search(txt):
         bad.append("Main.lean: forbidden token")
@@ -162,7 +159,7 @@ def audit(pid, modules):
             problems.append(f"audit: no axiom report for {nme}")
             continue
         for a in axioms[nme]:
-            if a not in ALLOWED_AXIOMS and not ALLOWED_AXIOM_RE.match(a):
+            if a not in ALLOWED_AXIOMS:
                 problems.append(f"audit: {nme} depends on disallowed axiom {a}")
     if rc != 0 and not problems:
         problems.append("audit: lean exited with an error: " + first_lean_error(out))
